@@ -190,6 +190,53 @@ def uniform_stub(key, shape=(), dtype=float, minval=0.0, maxval=1.0, **kw):
     return ocall("uniform", sd(shape, f32), key, jnp.broadcast_to(jnp.asarray(minval, f32), shape), jnp.broadcast_to(jnp.asarray(maxval, f32), shape))
 
 
+def native_repeat_replay(ename, fname):
+    """R1: the real component function called repeatedly with identical explicit arguments - eagerly twice, jitted, and vmapped vs per element - on the default environment and on one
+    whose numeric constructor options are all moved off their defaults (so that options that are inert by default take part)."""
+    def replay(model):
+        import inspect
+        cls = getattr(CC, ename)
+        variants = [{}]
+        opts = {}
+        for k_, p in inspect.signature(cls.__init__).parameters.items():
+            if isinstance(p.default, float) and k_ not in ("dt",):
+                opts[k_] = p.default * 1.5 + 0.25
+        variants.append(opts)
+        rng = np.random.RandomState(8)
+        for kw in variants:
+            try:
+                env = cls(**kw)
+            except Exception:
+                continue
+            State = type(env.initial(key=jax.random.key(0)))
+            n = env.initial(key=jax.random.key(0)).y.shape[0]
+            act = (lambda: jnp.asarray(rng.randint(0, env.action_space.n))) if isinstance(env.action_space, Discrete) else (lambda: jnp.asarray(rng.uniform(-1, 1, env.action_space.shape), f32))
+            mkS = lambda y: State(y=y, t=jnp.asarray(0.0))
+            kk = jax.random.key(0)
+            f = {"dynamics": lambda y, a, ny: env.dynamics(jnp.asarray(0.0), y, a), "clip": lambda y, a, ny: env.clip(y), "observation": lambda y, a, ny: env.observation(mkS(y), key=kk),
+                 "reward": lambda y, a, ny: env.reward(mkS(y), a, mkS(ny), key=kk), "terminal": lambda y, a, ny: env.terminal(mkS(y), key=kk),
+                 "transition": lambda y, a, ny: env.transition(mkS(y), a, key=kk).y}[fname]
+            ys = jnp.asarray(rng.randn(3, n) * 0.5, f32)
+            nys = jnp.asarray(rng.randn(3, n) * 0.5, f32)
+            acts = jnp.stack([act() for _ in range(3)])
+            r1, r2 = f(ys[0], acts[0], nys[0]), f(ys[0], acts[0], nys[0])
+            rj = jax.jit(f)(ys[0], acts[0], nys[0])
+            rv = jax.vmap(f)(ys, acts, nys)
+            rs = jnp.stack([f(ys[i], acts[i], nys[i]) for i in range(3)])
+            eq = lambda a, b: bool(np.allclose(np.asarray(a, np.float64), np.asarray(b, np.float64), rtol=1e-5, atol=1e-6, equal_nan=True))
+            bad = {}
+            if not np.array_equal(np.asarray(r1), np.asarray(r2), equal_nan=True):
+                bad["two eager calls, identical arguments"] = [np.asarray(r1).tolist(), np.asarray(r2).tolist()]
+            if not eq(r1, rj):
+                bad["eager vs jit"] = [np.asarray(r1).tolist(), np.asarray(rj).tolist()]
+            if not eq(rv, rs):
+                bad["vmap vs per-element"] = [np.asarray(rv).tolist(), np.asarray(rs).tolist()]
+            if bad:
+                return dict(reproduced=True, route=f"R1 (real {ename}.{fname}: repeated eager calls / jit / vmap)", inputs=dict(constructor=kw, y=np.asarray(ys[0]).tolist(), action=np.asarray(acts[0]).tolist()), observed=bad)
+        return dict(reproduced=False, note="eager twice, jit and vmap agree on the default and on an all-options-moved environment")
+    return replay
+
+
 def unit_envs(S):
     """every component function of the classic-control environments: vmapped over a symbolic batch == pointwise; closed, effect-free, re-extraction identical."""
     (B,) = symbolic_dims("B")
@@ -221,10 +268,10 @@ def unit_envs(S):
                 outs = run(ctx, lambda ii, *xs: f(*[x[ii] for x in xs]), i, *ins)
                 tr_b2, _ = extract.trace(lambda *xs: jax.vmap(f)(*xs), ins)
             Bz = ctx.dim(B)
-            S.prove(f"{ename}.{fname}/vmap-is-pointwise", ctx, kit.lane_eq(outb, outs, ic), hyps=[Bz >= 1, ic >= 0, ic < Bz], function=f"{fnp}.{fname}", nl_budget_ms=-4000,
+            S.prove(f"{ename}.{fname}/vmap-is-pointwise", ctx, kit.lane_eq(outb, outs, ic), hyps=[Bz >= 1, ic >= 0, ic < Bz], function=f"{fnp}.{fname}", nl_budget_ms=-4000, replay=native_repeat_replay(ename, fname),
                     what="the function vmapped over a batch gives, at every lane, the result of the unbatched function on that lane's inputs (no cross-lane operation)")
             txt1, txt2 = [re.sub(r"0x[0-9a-f]+", "0x", str(t.closed_jaxpr)) for t in (tr_b, tr_b2)]
-            S.fact(f"{ename}.{fname}/closed-effect-free-deterministic-extraction", not tr_b.closed_jaxpr.effects and txt1 == txt2, function=f"{fnp}.{fname}",
+            S.fact(f"{ename}.{fname}/closed-effect-free-deterministic-extraction", not tr_b.closed_jaxpr.effects and txt1 == txt2, function=f"{fnp}.{fname}", replay=native_repeat_replay(ename, fname),
                    what="the extracted program has no effects and re-extraction gives the identical program: the result depends only on the explicit arguments (eager, jit and vmap run the same jaxpr)")
 
 
